@@ -532,7 +532,7 @@ void generate_c09(Rng &r, const GenOpts &g, Plan &p) {
                                        {"ECHO? 1,\"s\",#12ab", "TEST:ECHO? 1,\"s\",#12ab"}, {"INT32? 42", ":TEST:INT32? 42"}, {"OPT?", "TEST:OPT?"},
                                        {"OPT? 5", "TEST:OPT? 5"},        {"TEXT? 'q'", "TEST:TEXT? 'q'"},          {"ARB? #13xyz", "TEST:ARB? #13xyz"},
                                        {"INT32?", "TEST:INT32?"},        {"PART 1,2", "TEST:PART 1,2"},            {"FAIL?", "TEST:FAIL?"},
-                                       {"NUMB? 10 V", "TEST:NUMB? 10 V"}, {"BLKD?", "TEST:BLKD?"}, {"*IDN?", "*IDN?"},                      {":STUB?", "STUB?"}};
+                                       {"NUMB? 10 V", "TEST:NUMB? 10 V"}, {"BLKD?", "TEST:BLKD?"}, {"BLKT?", "TEST:BLKT?"}, {"*IDN?", "*IDN?"},                      {":STUB?", "STUB?"}};
         p.knob["unit_mode"] = 1;
         size_t k = r.below(sizeof u2s / sizeof u2s[0]);
         p.ops.push_back(Op("u1", {}, u1s[r.below(sizeof u1s / sizeof u1s[0])]));
